@@ -116,6 +116,12 @@ def cases(tier, seed):
         for st in ("nonherm", "nilpotent", "zero", "rank1", "skew", "imag_identity", "skew_diag"):
             for sd in range(4):
                 out.append({"key": f"arb/{st}/n={n}/seed={sd}", "grp": "arb", "st": st, "n": n, "seed": sd})
+    # many starts on spectra with a cluster of sub-dominant eigenvalues of BOTH signs right at the gap (|lambda_2/lambda_1| = 0.8): "from every
+    # random start" - the start vector is the only scheduler, seeds 0..1499 (thorough 0..9999) are enumerated in blocks of 100
+    MS = 15 if tier == "quick" else 100
+    for si in range(3):
+        for blk in range(MS):
+            out.append({"key": f"manystarts/s={si}/seeds={blk * 100}-{blk * 100 + 99}", "grp": "manystarts", "si": si, "blk": blk})
     # option grid: verbose x return_eigenvalue x budget (incl. 0) x inputs on which no / one / all iterations complete
     for n in (1, 2, 3):
         for st in ("zero", "identity", "herm", "nonherm", "nilpotent"):
@@ -285,6 +291,32 @@ def run_case(case, seed):
                 fails.append(fail("estimate=|lambda_max|", f"estimate {est!r} vs |lambda1| = {abs(l1)} (allowed {eb:.1e})", tol=tol, **tags))
         return {"key": case["key"], "fails": fails, "nontrivial": True, "digest": digest(A, case["start"], tol), "states": states, "transitions": transitions,
                 "traces": 0 if fails else 1, "path": f"sign={int(np.sign(l1))},ratio={rho},start={kind}", "obs": [len(fails)]}
+    if grp == "manystarts":
+        lam = [[-5.0, 4.0, -4.0, 3.9, -3.9, 4.0, -4.0, 3.9, -3.9], [5.0, -4.0, 4.0, -3.9, 3.9], [-5.0, 4.0, 4.0, 3.9, -4.0, -3.9, 3.95]][case["si"]]
+        n = len(lam)
+        fillm = G.Fill(0, stream=4242 + case["si"])  # the matrix is the same for every VERIF_SEED: the enumeration is over the starts
+        V = G.unitary("hh", n, fillm, variant=3)
+        A = G.herm_with_spectrum(V, lam)
+        Aq = G.to_quat(A)
+        l1 = lam[0]
+        fails, bad = [], 0
+        for sd in range(case["blk"] * 100, case["blk"] * 100 + 100):
+            np.random.seed(sd)
+            ok, res = call(u.power_iteration, Aq, 500, 1e-10, True)
+            if not ok:
+                fails.append(fail("raised", f"seed {sd}: {type(res).__name__}: {res}", grp="manystarts", seed=sd))
+                continue
+            vf = G.from_quat(np.asarray(res[0])).reshape(n, 1, 4)
+            est = float(res[1])
+            resid = O.fro(O.qmatmul(A, vf) - l1 * vf)
+            if not O.is_finite(vf) or abs(O.fro(vf) - 1.0) > 1e-12:
+                fails.append(fail("unit_vector", f"seed {sd}", grp="manystarts", seed=sd))
+            elif abs(est - abs(l1)) > 1e-6 * abs(l1) or resid > 1e-3 * abs(l1):
+                bad += 1
+                if bad <= 5:
+                    fails.append(fail("estimate=|lambda_max|", f"start of global seed {sd}: estimate {est!r} vs |lambda1| = {abs(l1)}, ||A v - lambda1 v|| = {resid:.3e} (ratio 0.8, 500 iterations allowed)", grp="manystarts", seed=sd))
+        return {"key": case["key"], "fails": fails, "nontrivial": True, "digest": case["key"], "evals": 100, "transitions": 100, "traces": 100 - bad, "states": [case["key"]],
+                "path": "manystarts", "obs": [len(fails)]}
     if grp == "opts":
         n, st = case["n"], case["st"]
         fill = G.Fill(seed, stream=hash_tag(case["key"]))
